@@ -40,7 +40,8 @@ OBLIGATIONS = {"intersect": 100, "intersect:partial-left": 5,
                "intersect:delineated": 10, "voronoi": 100, "voronoi:tie": 20,
                "voronoi:more-cells-than-points": 30,
                "voronoi:more-points-than-cells": 5,
-               "voronoi:clustered-points": 10}
+               "voronoi:clustered-points": 10, "voronoi:grid-origin-not-0": 30,
+               "intersect:reused-object-other-set": 30}
 
 
 def mods():
@@ -65,16 +66,29 @@ def run_intersect_case(ctx, case):
     fine, coarse = case["fine"], case["coarse"]
     cells = [int(c) for c in case["cells"]]
     filled_cells = [int(c) for c in case.get("filled_cells", cells)]
-    use_filled = bool(case.get("filled", False))
+    first = bool(case.get("filled", False))
     ctx.evaluated()
     ctx.tag("intersect")
-    if use_filled:
-        ctx.tag("intersect:filled")
     if case.get("delineated"):
         ctx.tag("intersect:delineated")
     cat = make_catchment(fine, cells, filled_cells)
     cg = g.Grid("coarse", coarse["ncols"], coarse["nrows"], cellsize=coarse["csz"],
                 xllcorner=coarse["xll"], yllcorner=coarse["yll"])
+    # the same catchment object answers for both cell sets, in any order of asking
+    seq = [first, not first, first] if case.get("reuse", True) else [first]
+    if len(seq) > 1 and set(filled_cells) != set(cells):
+        ctx.tag("intersect:reused-object-other-set")
+    for i, use_filled in enumerate(seq):
+        judge_intersect(ctx, dict(case, filled=use_filled, call=i), g, cat, cg, fine,
+                        coarse, cells, filled_cells, use_filled)
+
+
+def judge_intersect(ctx, case, g, cat, cg, fine, coarse, cells, filled_cells,
+                    use_filled):
+    if use_filled:
+        ctx.tag("intersect:filled")
+    if case.get("call", 0):
+        ctx.evaluated()
     gf = Geom(fine["nrows"], fine["ncols"], fine["xll"], fine["yll"], fine["csz"])
     gc = Geom(coarse["nrows"], coarse["ncols"], coarse["xll"], coarse["yll"],
               coarse["csz"])
@@ -207,8 +221,19 @@ def run_voronoi_case(ctx, case):
         ctx.tag("voronoi:more-points-than-cells")
     cat = make_catchment(fine, cells)
     gf = Geom(fine["nrows"], fine["ncols"], fine["xll"], fine["yll"], fine["csz"])
+    if fine["xll"] != 0 or fine["yll"] != 0:
+        ctx.tag("voronoi:grid-origin-not-0")
     ctx.api("voronoi")
-    w = np.asarray(g.voronoi(cat, pts.copy()), dtype=float)
+    arg = pts.copy()
+    w = np.asarray(g.voronoi(cat, arg), dtype=float)
+    # the caller's array is an input: same content afterwards, same answer next time
+    w2 = np.asarray(g.voronoi(cat, arg), dtype=float)
+    ctx.api("voronoi")
+    ctx.check("voronoi.points-unaltered", bool(np.array_equal(arg, pts)),
+              "voronoi|alters-points", case, lambda: {"before": pts.tolist(),
+                                                      "after": arg.tolist()})
+    ctx.check("voronoi.repeatable", bool(np.array_equal(w, w2)), "voronoi|second-call-differs",
+              case, lambda: {"first": w.tolist(), "second": w2.tolist()})
     cnt = np.zeros(len(pts))
     tie = False
     for c in cells:
@@ -317,6 +342,11 @@ def run(ctx):
             ctx.sample(case)
         # Voronoi on a unit-cell grid with half-integer centres
         vf = {"nrows": nr, "ncols": nc, "csz": 1.0, "xll": 0.0, "yll": 0.0}
+        # every other case: the same configuration on a grid with another origin and
+        # cell size (dyadic, so that all distances stay exact)
+        vsc = [1.0, 0.5, 2.0][(it // 2) % 3] if it % 2 else 1.0
+        vox = float(rng.integers(-40, 41)) / 2.0 if it % 2 else 0.0
+        voy = float(rng.integers(-40, 41)) / 2.0 if it % 2 else 0.0
         npts = int(rng.integers(1, 7))
         if it % 4 == 3 and cells:
             # points clustered (k/8 lattice) around the centre of one catchment
@@ -334,6 +364,9 @@ def run(ctx):
         else:
             pts = rng.integers(-6, 30, size=(npts, 2)) / 2.0
         vcells = cells if it % 5 else cells[:1]
+        if it % 2:
+            vf = {"nrows": nr, "ncols": nc, "csz": vsc, "xll": vox, "yll": voy}
+            pts = np.asarray(pts, dtype=float) * vsc + np.array([vox, voy])
         run_voronoi_case(ctx, {"kind": "voronoi", "fine": vf, "cells": vcells,
                                "points": pts})
 
